@@ -3,7 +3,7 @@
    specification vocabulary (monitors, honest broker over a log): Model/ConsumerLog.v. *)
 From AV Require Import Base.Util Model.Consumer Model.ConsumerLog Model.ConsumerLogFifo Model.ConsumerLogSeg
   Proofs.ConsumerC02Extract Proofs.ConsumerC02ReqRun Proofs.ConsumerC02PwRun Proofs.ConsumerC02Fifo Proofs.ConsumerC02FifoRun
-  Proofs.ConsumerC02Log.
+  Proofs.ConsumerC02Log Proofs.ConsumerC02Idle.
 
 (* At most one offset/fetch request is outstanding and at most one refetch timer is armed, at every moment of every run:
    the monitor REQ (Model/ConsumerLog.v: rejects a request sent while one is outstanding, a refetch timer armed while
@@ -80,6 +80,21 @@ Theorem C02_delivered_is_log_segment : forall fuel c maxatt buf evs L,
              /\ forall n, l_nx gh = Some n -> l_st gh <= n /\ l_E gh = seg (l_st gh) n L.
 Proof. exact log_segment. Qed.
 Print Assumptions C02_delivered_is_log_segment.
+
+(* Progress, in its safety form (NEVER IDLE): between two events of any run, a consumer whose start Deferred has not
+   fired and which is not shutting down has an offset / fetch request outstanding - possibly answered already and
+   parked behind a busy processor, its Deferred is then still recorded and the reply is re-handled when the block
+   ends - or a refetch timer armed.  So the next unread offset is always about to be asked for; that the environment
+   then answers, and the timer fires, is the environment's liveness and is not modelled ("eventually" stays a
+   monitor).  Proved for every configuration and every event list (replies whose decoding raises mid-way are
+   outside the model: that case is finding F-C02-1, repaired in 3e037d7, and is watched by the same monitor on the
+   implementation). *)
+Theorem C02_never_idle : forall fuel c maxatt buf evs,
+  run_fuel_ok fuel c maxatt buf evs = true ->
+  let s := fst (run_events fuel (init c maxatt buf) evs) in
+  startd_unfired s = true -> s_shutting s = false -> (is_some (s_req s) || rcall_active s) = true.
+Proof. exact never_idle. Qed.
+Print Assumptions C02_never_idle.
 
 (* The extraction loop against an honest broker (a contiguous run of the log starting at or before the first entry
    >= the fetch offset, cut anywhere): for EVERY log with strictly increasing offsets (gaps allowed) and every start
@@ -177,3 +192,10 @@ Example log_rejects_reread : log_out (mkL 4 (Some 8) 4 [4; 7] [] [] [4; 7]) (OFe
 Proof. reflexivity. Qed.
 Example log_rejects_unfetched : log_out (mkL 4 (Some 8) 4 [4; 7] [] [7] [4]) (OCallProc [8]) = None.
 Proof. reflexivity. Qed.
+(* never idle is not vacuous: after a fetch reply has been handed to a slow processor the consumer is alive, has no
+   request outstanding, and the refetch timer is what keeps it going *)
+Example never_idle_ex :
+  let c := mkCfg true 2 false 0 None (-1) in
+  let s := fst (run_events 30 (init c 0 4096) [EStart 0; EFetchOk [0; 1; 2] false]) in
+  startd_unfired s = true /\ s_shutting s = false /\ s_req s = None /\ rcall_active s = true.
+Proof. vm_compute. repeat split; reflexivity. Qed.
